@@ -36,9 +36,9 @@ CHECKS = {
         level='proof', design='§6 C03',
         text='Theorems C03_in_one / C03_in_set / C03_generic: the work-list search of entityInOne/entityInSet (todo stack, known set, the four pruning '
              'tests) returns true exactly when the target is reachable by parent links of present entities (reflexive-transitive closure), on every '
-             'store incl. cycles, self parents, absent parents and absent queried entities, and never exceeds the fuel 1+|store| (termination). '
+             'store incl. cycles, self parents, absent parents and absent queried entities, and never exceeds the fuel 1+|store| (termination). C03_scope_forms_agree / C03_scope_forms_are_reachability: the scope forms, as the authorizer evaluates them (scope expressions through the evaluator) and as the partial evaluator / batch authorizer decides them (scope_holds), agree and are that reachability relation. '
              'Correspondence: every parent graph on 3 nodes x every presence subset (quick; 4 nodes thorough) x every pair / target set / is-in / scope '
-             'form, three-way compared (Go, model, independent closure).',
+             'form, three-way compared (Go, model, independent closure); the scope forms also through batch.Authorize (= brute force = model).',
         note=TB,
         technique='Coq invariant proof of the DFS loop (partial correctness + fuel bound) + exhaustive small-graph correspondence'),
     'C04': dict(
@@ -65,9 +65,9 @@ CHECKS = {
         level='proof', design='§6 C06',
         text='Model of partial.go (tryPartial with projection flag, errVariable/errIgnore, partialAnd/Or/If, residualOperand, partialHasEval, '
              'PartialPolicy) in Impl/Partial.v; soundness theorem (residual satisfied iff original satisfied for every completion; dropped => never '
-             'satisfied) in Properties/C06.v. Correspondence: residual policies structurally Go = model; direct oracle on every completion of every '
+             'satisfied; ignored parts only ever widen what permits allow) in Properties/C06.v. Correspondence: residual policies structurally Go = model; direct oracle on every completion of every '
              'generated template (unknown principal/resource/context, unknowns nested in records and sets, ignore).',
-        note=TB + 'Ignore-widening is checked by the direct oracle only.',
+        note=TB + 'The ignore clause is a theorem too (Proofs/PartialIgnoreProofs.v): C06_ignore_widens_permits (a permit satisfied for some value of the ignored parts is kept and its residual is satisfied there), its contrapositive for dropped permits, C06_ignore_forbid_kept, C06_partial_expr_sound_with_ignore; the widening is strict (C06_ignore_widening_is_strict).',
         technique='Coq proof of soundness of the partial evaluator model + structural differential correspondence + completion oracle'),
     'C07': dict(
         level='proof', design='§0.2, §6 C07',
